@@ -87,20 +87,69 @@ theorem get_alias (r : Rel) (a : ADict V) {k k' : VName} {s : Sign}
   | none => rfl
   | some w => simp only [h.signed_out]
 
+omit [NegVal V] [LawfulNegVal V] in
 theorem del_alias (r : Rel) (a : ADict V) {k k' : VName} {s : Sign}
     (h : AliasOf r a.signedValues k k' s) : a.del r k' = a.del r k := by
   unfold ADict.del; rw [h.fst]
 
+omit [NegVal V] [LawfulNegVal V] in
 theorem contains_alias (r : Rel) (a : ADict V) {k k' : VName} {s : Sign}
     (h : AliasOf r a.signedValues k k' s) : a.contains r k' = a.contains r k := by
   unfold ADict.contains; rw [h.fst]
 
+omit [LawfulNegVal V] in
 theorem set_flag (r : Rel) (a a' : ADict V) (k : VName) (v : V) (h : a.set r k v = .ok a') :
     a'.signedValues = a.signedValues := by
   unfold ADict.set at h
   split at h
   · injection h with h; subst h; rfl
   · cases h
+
+omit [NegVal V] [LawfulNegVal V] in
+theorem del_flag (r : Rel) (a a' : ADict V) (k : VName) (h : a.del r k = .ok a') :
+    a'.signedValues = a.signedValues := by
+  unfold ADict.del at h
+  split at h
+  · injection h with h; subst h; rfl
+  · cases h
+
+omit [LawfulNegVal V] in
+theorem setdefault_flag (r : Rel) (a a' : ADict V) (k : VName) (v w : V)
+    (h : a.setdefault r k v = .ok (a', w)) : a'.signedValues = a.signedValues := by
+  unfold ADict.setdefault at h
+  split at h
+  · cases hg : a.get r k with
+    | ok x => rw [hg] at h; injection h with h; injection h with h1 h2; subst h1; rfl
+    | error e => rw [hg] at h; cases h
+  · cases hs : a.set r k v with
+    | ok a2 =>
+      rw [hs] at h; injection h with h; injection h with h1 h2; subst h1
+      exact set_flag r a _ k v hs
+    | error e => rw [hs] at h; cases h
+
+theorem setdefault_alias (r : Rel) (a : ADict V) {k k' : VName} {s : Sign}
+    (h : AliasOf r a.signedValues k k' s) (v : V) :
+    a.setdefault r k' (signed s v)
+      = (match a.setdefault r k v with
+         | .ok (a', w) => .ok (a', signed s w)
+         | .error e => .error e) := by
+  unfold ADict.setdefault
+  rw [contains_alias r a h, get_alias r a h, set_alias r a h]
+  cases a.contains r k
+  · simp only [Bool.false_eq_true, if_false]
+    cases a.set r k v <;> rfl
+  · simp only [if_true]
+    cases a.get r k <;> rfl
+
+theorem getD_alias (r : Rel) (a : ADict V) {k k' : VName} {s : Sign}
+    (h : AliasOf r a.signedValues k k' s) (v : V) :
+    a.getD r k' (signed s v) = signed s (a.getD r k v) := by
+  unfold ADict.getD
+  rw [contains_alias r a h, get_alias r a h]
+  cases a.contains r k
+  · rfl
+  · simp only [if_true]
+    cases a.get r k <;> rfl
 
 theorem update_alias (r : Rel) {l l' : List (VName × V)} :
     ∀ (a : ADict V), UpdAlias r a.signedValues l l' → a.update r l' = a.update r l := by
@@ -115,6 +164,7 @@ theorem update_alias (r : Rel) {l l' : List (VName × V)} :
     | ok a' => exact ih a' (set_flag r a a' _ _ hs)
     | error e => rfl
 
+omit [LawfulNegVal V] in
 theorem update_flag (r : Rel) (l : List (VName × V)) :
     ∀ a : ADict V, (a.update r l).1.signedValues = a.signedValues := by
   induction l with
@@ -127,6 +177,7 @@ theorem update_flag (r : Rel) (l : List (VName × V)) :
     | ok a' => simp only; rw [ih a', set_flag r a a' k v hs]
     | error e => rfl
 
+omit [LawfulNegVal V] in
 /-- both dictionaries of the machine keep their `signed_values` flag -/
 theorem step_flags (r : Rel) (s : St V) (op : Op V) (sv : Bool)
     (hc : s.cur.signedValues = sv) (ha : s.alt.signedValues = sv) :
@@ -139,8 +190,10 @@ theorem step_flags (r : Rel) (s : St V) (op : Op V) (sv : Bool)
     | error e => exact ⟨hc, ha⟩
   | get k => simp only [step]; cases s.cur.get r k <;> exact ⟨hc, ha⟩
   | del k =>
-    simp only [step, ADict.del]
-    split <;> exact ⟨hc, ha⟩
+    simp only [step]
+    cases hs : s.cur.del r k with
+    | ok a' => exact ⟨(del_flag r _ _ k hs).trans hc, ha⟩
+    | error e => exact ⟨hc, ha⟩
   | contains k => exact ⟨hc, ha⟩
   | len => exact ⟨hc, ha⟩
   | keys => exact ⟨hc, ha⟩
@@ -154,12 +207,12 @@ theorem step_flags (r : Rel) (s : St V) (op : Op V) (sv : Bool)
       rw [h] at this
       cases e <;> exact ⟨this.trans hc, ha⟩
   | setdefault k v =>
-    simp only [step, ADict.setdefault]
-    split
-    · cases s.cur.get r k <;> exact ⟨hc, ha⟩
-    · cases hs : s.cur.set r k v with
-      | ok a' => exact ⟨(set_flag r _ _ k v hs).trans hc, ha⟩
-      | error e => exact ⟨hc, ha⟩
+    simp only [step]
+    cases hs : s.cur.setdefault r k v with
+    | ok p =>
+      obtain ⟨a', w⟩ := p
+      exact ⟨(setdefault_flag r _ _ k v w hs).trans hc, ha⟩
+    | error e => exact ⟨hc, ha⟩
   | getD k v => exact ⟨hc, ha⟩
   | copy => exact ⟨hc, hc⟩
   | swap => exact ⟨ha, hc⟩
@@ -184,16 +237,12 @@ theorem step_alias (r : Rel) (s : St V) {op op' : Op V} {sg : Sign}
   | contains hk =>
     simp only [step, contains_alias r s.cur hk]; rfl
   | setdefault v hk =>
-    simp only [step, ADict.setdefault, contains_alias r s.cur hk, get_alias r s.cur hk,
-      set_alias r s.cur hk]
-    split
-    · cases s.cur.get r _ <;> rfl
-    · cases s.cur.set r _ v <;> rfl
+    simp only [step, setdefault_alias r s.cur hk]
+    cases s.cur.setdefault r _ v with
+    | ok p => obtain ⟨a', w⟩ := p; rfl
+    | error e => rfl
   | getD v hk =>
-    simp only [step, ADict.getD, contains_alias r s.cur hk, get_alias r s.cur hk]
-    split
-    · cases s.cur.get r _ <;> rfl
-    · rfl
+    simp only [step, getD_alias r s.cur hk]; rfl
   | update hl =>
     simp only [step, update_alias r s.cur hl]
     cases h : s.cur.update r _ with
